@@ -199,7 +199,7 @@ def judge(col, paths, cls, b, l, rm, info, variant):
 
 
 def variant_group(v):
-    return {"full": "git", "diffonly": "diff3", "bare": "builtin", "spaced": "git"}[v]
+    return {"full": "git", "diffonly": "diff3", "bare": "builtin", "spaced": "git", "diffnodiff3": "builtin"}[v]
 
 
 def run_shard(spec):
@@ -241,6 +241,6 @@ def run_shard(spec):
                     c["source"] = c["source"].replace("\n", "\r\n")
             if isinstance(info, dict) and "local_line" in info:
                 pass
-        for variant in ("full", "diffonly", "bare") + (("spaced",) if k % 4 == 0 else ()):
+        for variant in ("full", "diffonly", "bare") + (("spaced",) if k % 4 == 0 else ()) + (("diffnodiff3",) if k % 4 == 2 else ()):
             judge(col, paths, cls, b, l, rm, info or {}, variant)
     return col.result()
